@@ -2,7 +2,7 @@
 """Regenerates /verif/MANIFEST.json from the table below."""
 import json, os
 VERIF = os.path.dirname(os.path.dirname(os.path.abspath(__file__)))
-HOOK_COMMITS = ["2a964bf"]
+HOOK_COMMITS = ["2a964bf", "fa83b6a"]
 
 CLAIMS = {
  "C16": dict(
@@ -17,6 +17,14 @@ CLAIMS = {
   text="Coq theorems (all inputs, configs, tie-breaks): attempts start in order, each at most once, monotone in time; initial batch bounded by the configured concurrency and started at 0; completion no later than the deadline. PARTIAL: the two pacing clauses of the monitor (each later start triggered by, and as soon as, stagger timer / failure / empty set) are not yet proved for the model; they are evaluated on every implementation trace and the model is compared event-for-event with the implementation.",
   note="As C10. The pacing clauses s_pace/s_unstarted are tested (monitor on implementation traces + exact model/impl equality), not proved.",
   technique="Coq proof (inductive invariant) for order/initial/deadline; pacing by monitor + differential correspondence", ref="DESIGN.md 4/C11, 3.2"),
+ "C08": dict(
+  text="Coq theorems for EVERY byte stream and EVERY read script (any fragmentation, Pending anywhere, errors; no length bound): the model of ReadVersion::poll answers HTTP/2 exactly when the stream starts with the 24-byte preface, never loses/duplicates/reorders a byte (prefix ++ unread = stream), always terminates, and reading through the rewound stream with any buffer sizes replays exactly the client's bytes. Tied to the real sniffer (hook) and Rewind by differential runs over a stream grammar x compositions of the first 24 bytes x Pending insertions, verdict + every read compared in the kernel.",
+  note="Trusted: Coq kernel+VM; hand model of auto.rs ReadVersion and rewind.rs (tied by sampling); harness scripted stream; hook verif_read_version. The clause 'answered identically to a single-protocol server' rests on hyper itself (R2) and is exercised end-to-end under C01 only. Genuine defect D1 (fragmented preface => HTTP/1) was found by this model and fixed in /repo (856f863). No axioms.",
+  technique="Coq proof (loop invariant over arbitrary read scripts) + differential correspondence", ref="DESIGN.md 4/C08, 3.4, appendix C"),
+ "C18": dict(
+  text="Coq theorems for every adapter stack of the model, every inner stream/script and every outer op sequence: delivered bytes ++ still-unread bytes is invariant (no loss, duplication, reordering, invention), the inner writer holds exactly the accepted bytes in order (also for vectored writes), per-op bounds, TokioIo filled/initialised bookkeeping, EOF/Pending/error propagation. Tied to the real TokioIo (both directions, nested), Rewind, TlsBraid, client and server Stream wrappers by per-operation differential runs against a scripted inner stream.",
+  note="Trusted: Coq kernel+VM; hand model (forwarding adapters are identity in the model, so for them the theorem is only as strong as the correspondence run); absence of UB in the unsafe blocks is not expressible (R1); real TCP/Unix/duplex sockets under Braid are exercised by C01 only. No axioms.",
+  technique="Coq proof (FIFO refinement invariant over op sequences) + per-op differential correspondence", ref="DESIGN.md 4/C18, 3.4"),
 }
 
 def main():
